@@ -19,16 +19,16 @@ def run(ctx, proofs):
                         "`pick_ok`: only a denotable, varying condition named by `decides` lets the phi choice depend on the valuation - an assumption of the relation). "
                         "Concrete per-valuation runs (Spec.DegRun) are proved represented when all valuations follow the same path of blocks "
                         "(C07_same_path_runs_represented, C07_concrete_runs_claims_true).",
-                        "OPEN C07_diverging_runs_represented: a family of concrete runs whose paths differ between valuations (a signal-dependent if/else re-joining at a phi) "
-                        "is represented by a reachable store with the phi choice = the edge taken; needs (i) a firing schedule covering all paths, (ii) two runs that enter a join "
-                        "by different edges differ on a DENOTABLE decider (graph part proved for graphs with the edge lists of a lifted skeleton: C07_lifted_split_is_named_by_decides; "
-                        "audited on concrete runs: control_dependence_audit), (iii) the store at the phi step holds the operands of the decider's last evaluation.",
+                        "PROVED for loop-free graphs (C07_loop_free_graph_claims_true; decidable hypotheses djust_cfg, SsaCheck.infos_ok, DegGraph.deg_graph_ok, DegGraph.loop_free_ok, evaluated per "
+                        "graph: dominator_table_hypotheses.graphs_covered_by_loop_free_theorem; plus `same edge lists as the lifted skeleton`, compared by C13's engine, not here): "
+                        "families of concrete runs whose paths DIFFER are represented, `picks_decided` derived.",
+                        "OPEN diverging runs in graphs WITH loops (same sequence of loop-header entries, different arms inside): not proved.",
                         "OPEN signal-dependent trip counts: outside the lock-step relation (no store represents the family); soundness is argued (header phis get no claim or upper "
-                        "end NonQuadratic), not proved. The oracle judges such programs per iteration context only: a claim is compared on the runs that reach the node after the same "
-                        "sequence of loop-header entries (degree_oracle.claims_judged_on_signal_dependent_paths), contexts reached by fewer than d + 2 of the five runs are not "
-                        "judged (degree_oracle.discarded_signal_dependent_paths).",
-                        "OPEN SSA conversion keeps blocks and edges (so that `decides` on the SSA graph is control dependence of the lifted skeleton): observed by the C14 "
-                        "correspondence (erasure validator on every graph), not composed into one theorem with lifting and propagation.",
+                        "end NonQuadratic), not proved. The oracle judges such programs per iteration context: inside such a loop a claim is compared on the runs that are in the "
+                        "same iteration (degree_oracle.claims_judged_on_signal_dependent_paths; contexts reached by fewer than d + 2 of the five runs are not judged: "
+                        "degree_oracle.discarded_signal_dependent_paths); behind the loop all five runs are compared again.",
+                        "OPEN the lifted-skeleton edge hypothesis for the REAL graph: C07_chain_split_is_named_by_decides composes the mirrors (lifting, SSA, propagation); that "
+                        "the mirrors are the implementation is the per-run correspondence (C13, C14, here).",
                         "The validator DegJustify.djust_cfg demands equality of every claimed range with the table range (deg_claim_is): it does not accept every SOUND claim; a more "
                         "conservative implementation is reported as `VALIDATOR REJECTS` without a failing input.",
                         "No theorem: the `consequently` clause about the CS0013 advice (C08 evaluates it on the implementation's own degrees); lower ends of ranges."],
